@@ -234,6 +234,14 @@ func (l *lexer) next(allowRegex bool) token {
 		return l.newToken(tt)
 	}
 
+	if lookupSymbol2(ch) != nil {
+		// This character is not a symbol in its own right but
+		// it begins a two-character symbol (e.g. the '!' in
+		// "!="). Return it as a single character name so that
+		// the lexer always makes progress.
+		return l.newToken(typeName)
+	}
+
 	if ch == '"' || ch == '\'' {
 		l.ignore()
 		return l.scanString(ch)
@@ -338,7 +346,9 @@ func (l *lexer) scanNumber() token {
 			// If there are no digits after the decimal point,
 			// don't treat the dot as part of the number. It
 			// could be part of the range operator, e.g. "1..5".
-			l.backup()
+			// Note that we can't call backup here because the
+			// preceding acceptAll call has already backed up.
+			l.current--
 			return l.newToken(typeNumber)
 		}
 	}
@@ -457,6 +467,7 @@ func (l *lexer) backup() {
 	// is called again, we don't need to repeat the call
 	// to DecodeRuneInString.
 	l.current -= l.width
+	l.width = 0
 }
 
 func (l *lexer) ignore() {
